@@ -13,8 +13,10 @@ var Checks = map[string]func(*Env) int{
 	"C09": CheckC09,
 	"C10": CheckC10,
 	"C14": CheckC14,
+	"C16": CheckC16,
 	"C17": CheckC17,
 	"C18": CheckC18,
+	"C19": CheckC19,
 	"C20": CheckC20,
 	"C11": CheckC11,
 	"C12": CheckC12,
